@@ -296,6 +296,9 @@ def parse_gopherp_dir(body: bytes):
     return out
 
 
+WAP_PREFIX = b"/wap"  # a check that configures another prefix sets this for the duration of its case
+
+
 def _url_target(url: bytes, wap=False):
     m = re.match(rb"^gopher://([^:/]+):(\d+)/(.)(.*)$", url, re.S)
     if m:
@@ -303,9 +306,9 @@ def _url_target(url: bytes, wap=False):
     if re.match(rb"^[A-Za-z][A-Za-z0-9+.-]*:", url) or url == b"":
         return ("url", url)
     if wap:
-        if not url.startswith(b"/wap"):
+        if not url.startswith(WAP_PREFIX):
             return ("badwap", url)
-        url = url[4:]
+        url = url[len(WAP_PREFIX):]
     return ("local", unquote_to_bytes(url))
 
 
